@@ -141,6 +141,11 @@ def _gen_script(rng, kind, faulty):
         s["ignores_term"] = True  # the program ignores SIGTERM; only SIGKILL ends it
     if kind not in ("stublocal", "stubpoll") and rng.random() < 0.2:
         s["case"] = "lower"  # a legal behaviour of the program: the same alignment, residues printed in lower case
+    if kind != "stubpoll" and s["tool_seed"] % 9 == 0:
+        # the program ends its STDERR with a message in an 8-bit locale encoding (bytes that are not valid UTF-8): a
+        # behaviour of the program that has nothing to do with its result. Derived from tool_seed, not drawn, so that
+        # the rest of the generated history is what it was before this fault kind existed
+        s["bad_bytes"] = True
     if not faulty:
         return s
     f = rng.choice(["launch", "nonzero", "hang", "out", "tree", "nonzero_partial", "eval"])
@@ -938,9 +943,16 @@ class Sim:
 
     # -- everything else
     def dispatch(self, rec, op):
-        if rec.spec.get("web"):
-            return self.dispatch_web(rec, op)
-        return self.dispatch_plain(rec, op)
+        try:
+            if rec.spec.get("web"):
+                return self.dispatch_web(rec, op)
+            return self.dispatch_plain(rec, op)
+        except sw.SimDeadlock as e:
+            # The generator never asks for a call that blocks by specification (a join without timeout on a program that
+            # never exits is refused beforehand as InvalidSpec). If the simulator still finds the code under test waiting
+            # for ever - polling without end, or blocked on a child that will not exit although a timeout was given -
+            # the call would never return: bounded liveness is violated
+            self.fail("liveness:call-never-returns", kind=rec.kind, op=op["op"], timeout=op.get("timeout"), why=str(e))
 
     def dispatch_web(self, rec, op):
         """WebApp flavour of the polling wrapper. Its is_finished() contacts a simulated server that allows one contact
@@ -1281,6 +1293,8 @@ class Sim:
                 p.wait_dead()
         if self.real and st == "ok":
             popen = rec.app.get_process()
+            if popen is None or not hasattr(popen, "pid"):
+                self.fail("start:program-not-launched", kind=rec.kind)
             rec.procs.append(RealProc(popen, rec, self.world, ctrl))
             self.res.stats["sim:popen"] += 1
             if script.get("dur") is None:
@@ -1314,6 +1328,8 @@ class Sim:
         rec.started_at = self.world.now
         self.launched_any = True
         if rec.kind == "stubpoll":
+            if rec.job is None:
+                self.fail("start:program-not-launched", kind=rec.kind)
             rec.exit_at = rec.job["exit_at"]
         else:
             if len(rec.procs) != 1:
@@ -1382,7 +1398,9 @@ class Sim:
             if val != p._out:
                 self.fail("getter:wrong-value", kind=rec.kind, op=name, got=str(val)[:100], expected=p._out[:100])
         elif name == "get_stderr":
-            if val != p._err:
+            if rec.script.get("bad_bytes") and isinstance(val, str) and val.startswith(p._err) and len(val) > len(p._err):
+                pass  # the readable part is there; how the undecodable tail is rendered is the wrapper's choice
+            elif val != p._err:
                 self.fail("getter:wrong-value", kind=rec.kind, op=name, got=str(val)[:100], expected=p._err[:100])
 
     # -- join ---------------------------------------------------------------------------------------------------
